@@ -267,6 +267,9 @@ def build_cases(tier="quick"):
     from contracts.common import rewrap
 
     ref += rewrap(PROP, c16.pin_cases(), "model-bound-by-every-condition", lambda c: "to_smt2" in c.unit)
+    # a model is only taken from a solver run that ended by itself: after a shutdown every finished job is an error, whatever it printed
+    # (a killed solver leaves a truncated model without the f_evm_ interpretations) (C05's units)
+    ref += rewrap(PROP, c05.callback_cases() + c05.from_result_cases(), "only-complete-solver-output")
     return from_result_cases() + validity_cases() + parse_model_cases() + value_cases() + classification_cases() + ref
 
 
